@@ -40,6 +40,8 @@ Conventions of the generated Lean
   * an `if` statement some branch of which ends in `return` / `break` gets the continuation copied
     into the other branches; any other `if` statement is `let st := if c then ..; st else ..; st`
     (st = outer variables assigned in the branches);
+  * `match e { Enum::A => .., .. }` on `LegendreSymbol` / `Ordering` is the header combinator
+    `matchLegendre` / `matchOrdering` with the arms as thunks passed BY NAME in source order;
   * `Option<T>` / `Result<T, E>` are `Option T` (the error VALUE of `from_repr` is not modelled);
     `Ordering` is Lean's `Ordering`; `LegendreSymbol` is the model TYPE `PP.Legendre`;
     `BitIterator::new(e)` is `PP.bitsMSB e` (model of the ff crate's iterator; its Rust text is checked).
@@ -1577,7 +1579,8 @@ class Tr:
             t, ty = self.ex(e["scrut"], env)
             if ty not in ("Ordering", "Legendre"):
                 self.err(e, "match on a value of type %s" % (ty,))
-            self.emit(ind, "match %s with" % t, "match %s {" % self.text(e["scrut"]))
+            comb = {"Ordering": "matchOrdering", "Legendre": "matchLegendre"}[ty]
+            self.emit(ind, "%s %s" % (comb, self.par(t)), "match %s {" % self.text(e["scrut"]))
             seen = set()
             for pat, body in e["arms"]:
                 segs = pat["segs"]
@@ -1585,8 +1588,12 @@ class Tr:
                 if key not in ENUMS or ENUMS[key][1] != ty or key in seen:
                     self.err(e, "unsupported match arm %s" % "::".join(segs))
                 seen.add(key)
-                self.emit(ind, "| %s =>" % ENUMS[key][0], "%s =>" % "::".join(segs))
-                self.seq(body["stmts"], 0, body["tail"], ind + 2, dict(env), K)
+                self.emit(ind + 2, "(%s := fun _ =>" % ENUMS[key][0].split(".")[-1], "%s =>" % "::".join(segs))
+                self.seq(body["stmts"], 0, body["tail"], ind + 4, dict(env), K)
+                li, lt, lc = self.lines[-1]
+                if lt is None:
+                    self.err(e, "internal: match arm ends in a comment line")
+                self.lines[-1] = (li, lt + ")", lc)
             if len(seen) != 3:
                 self.err(e, "non-exhaustive match")
             return
@@ -1934,6 +1941,22 @@ def forMutZip {σ : Type} (f : σ → Nat → Nat → σ × Nat) : σ → List N
 def forBreak {σ α : Type} (f : σ → α → σ × Bool) : σ → List α → σ
   | s, [] => s
   | s, x :: xs => if (f s x).2 then (f s x).1 else forBreak f (f s x).1 xs
+
+/-- `match d { LegendreSymbol::Zero => .., QuadraticResidue => .., QuadraticNonResidue => .. }` (arms as
+    thunks, passed by name in source order; a definition whose body is a bare `match` on a computed value
+    makes Lean's `unfold` evaluate that value) -/
+def matchLegendre {α : Type} (d : PP.Legendre) (zero residue nonResidue : Unit → α) : α :=
+  match d with
+  | .zero => zero ()
+  | .residue => residue ()
+  | .nonResidue => nonResidue ()
+
+/-- `match o { Ordering::Less => .., Equal => .., Greater => .. }` -/
+def matchOrdering {α : Type} (o : Ordering) (lt eq gt : Unit → α) : α :=
+  match o with
+  | .lt => lt ()
+  | .eq => eq ()
+  | .gt => gt ()
 
 /-- `while cond { body }`: `none` = not finished after `fuel` tests of the condition (or the body
     itself ran out of fuel) -/
